@@ -105,7 +105,7 @@ theorem establish_doc (c : RCfg) (adv : Bool) (o : UriOracle) (raw : String) (at
   simp only [List.length_cons, List.length_append, List.length_nil]
   rw [fromXmlHello]
   have ht : (helloTag raw attrs).is BASE "hello" = true := by simp [Tag.is, helloTag]
-  simp only [ht, if_true]
+  simp only [ht, Option.isSome_none, Bool.and_false, Bool.not_false, Bool.and_true, if_true]
   have hraw : (helloTag raw attrs).raw = raw := rfl
   rw [hraw, helloLoop_refines c o cs hwf _ raw none none [.eof] (by omega)]
   cases helloAbs c o none none cs with
